@@ -12,7 +12,7 @@
    the syntax-error checker, of the numeral / string-literal analysers and of the lexer / parser / doc-parser
    error paths: invalid escapes, unfinished strings and long brackets, malformed numerals, operators without
    operands, stray brackets (several DIFFERENT errors at one range), broken statements and doc tags -- alone
-   (with every token drop / duplication / truncation) or next to a valid line.
+   (with every token drop / truncation) or next to a valid line.
 
    SpecJudge (validation of recorded results): the harness runs the real analysis + diagnose_file on every
    generated program under the default and the "all codes enabled" configuration and records, per run,
@@ -111,6 +111,37 @@ ErrLib == <<
   <<"return", "return">>,
   <<"break">>,
   <<"a", "=", "1", "~=">>,
+  <<"x", "=", "1", "..">>,
+  <<"end">>,
+  <<"else">>,
+  <<"until">>,
+  <<"then">>,
+  <<"do">>,
+  <<"while">>,
+  <<"if", "x", "then", "elseif">>,
+  <<"for", "i", "=", "1", ",", "2", ",", "do", "end">>,
+  <<"for", "k", ",", "in", "x", "do", "end">>,
+  <<"for", "k", "in", "do", "end">>,
+  <<"for", "k", ",", "v", "x", "do", "end">>,
+  <<"function", "a", ".", "(", ")", "end">>,
+  <<"function", "(", ")", "end">>,
+  <<"global", "function">>,
+  <<"local", "x", ",", "=", "1">>,
+  <<"a", ":", "b">>,
+  <<"a", "(", "{">>,
+  <<"x", "=", "(", ")">>,
+  <<"x", "=", "a", "[", "]">>,
+  <<"local", "t", "=", "{", "[", "1", "]", "}">>,
+  <<"local", "t", "=", "{", "[", "1", "}">>,
+  <<"local", "t", "=", "{", "a", "=", "}">>,
+  <<"local", "s", "=", "[=abc">>,
+  <<"goto", "l">>,
+  \* version-dependent lexer / parser errors (the glue also analyses these under runtime.version = Lua5.1)
+  <<"local", "a", "=", "1", "//", "2">>,
+  <<"local", "a", "=", "1", "&", "2">>,
+  <<"local", "x", "<close>", "=", "1">>,
+  <<"local", "x", "<", "=", "1">>,
+  <<"local", "x", "<const", "=", "1">>,
   \* doc comments: doc-parser error paths
   <<"---@field", "1">>,
   <<"---@field", "public">>,
@@ -127,6 +158,8 @@ ErrLib == <<
   <<"---@class", "A", ":">>,
   <<"---@class", "A<">>,
   <<"---@cast", "x">>,
+  <<"---@generic", "const">>,
+  <<"---@type", "fun">>,
   <<"---@see">>,
   <<"---@version", ">">>,
   <<"---@module">>,
@@ -146,9 +179,9 @@ BaseSeqs == UNION {[1..n -> 1..NLib] : n \in 1..MaxLines}
 ErrAlone == {<<NLib + e>> : e \in 1..NErr}
 ErrSeqs == IF WithErr THEN ErrAlone \cup {<<1, NLib + e>> : e \in 1..NErr} \cup {<<NLib + e, 2>> : e \in 1..NErr} ELSE {}
 LineSeqs == BaseSeqs \cup ErrSeqs
-Muts(ls) == IF ls \in BaseSeqs \/ ls \in ErrAlone
-            THEN {<<"none", 0>>} \cup {<<m, k>> : m \in {"drop", "dup", "trunc"}, k \in 1..NTok(ls)}
-            ELSE {<<"none", 0>>}
+Muts(ls) == CASE ls \in BaseSeqs -> {<<"none", 0>>} \cup {<<m, k>> : m \in {"drop", "dup", "trunc"}, k \in 1..NTok(ls)}
+              [] ls \in ErrAlone -> {<<"none", 0>>} \cup {<<m, k>> : m \in {"drop", "trunc"}, k \in 1..NTok(ls)}
+              [] OTHER -> {<<"none", 0>>}
 
 InitGen == /\ rec = 0
            /\ \E ls \in LineSeqs : \E nl \in {"LF", "CRLF"} : \E m \in Muts(ls) :
